@@ -72,7 +72,7 @@ def run(res, b, tier, seed):
                                            meta=dict(src=src, expected_out="".join(l + "\n" for l in out), expected_status=status,
                                                      panic_in_func=ks.get("_panic_in_func", False), empty_substr=ks.get("_empty_substr", False),
                                                      minint=ks.get("_minint", False), switch_break=bool(ks.get("_switch_break")),
-                                                     switch_break_static=bool(ks.get("_switch_break_static")))))
+                                                     switch_break_static=bool(ks.get("_switch_break_static")), switch_tag_call=bool(ks.get("_switch_tag_call")), range_call=bool(ks.get("_range_call")))))
         finally:
             gen_prog.BITS = 64
         pipeline.run_pipe(b, cases, "w")
@@ -129,6 +129,10 @@ def run(res, b, tier, seed):
         if c.meta["empty_substr"] and res.known_finding("substring-of-empty-string", what):
             continue
         if c.meta.get("switch_break") and res.known_finding("break-in-switch", what):
+            continue
+        if c.meta.get("switch_tag_call") and what.startswith("behaviour") and res.known_finding("switch-tag-evaluated-per-case", what):
+            continue
+        if c.meta.get("range_call") and what.startswith("behaviour") and res.known_finding("range-expression-re-evaluated", what):
             continue
         if c.meta.get("switch_break_static") and what.startswith("not transpiled: ERR break outside of a loop") and res.known_finding("break-in-switch", what):
             continue
